@@ -375,7 +375,8 @@ def _store_array(
             chunkss=[chunks],
             target_stores=[target],
             output_blocks=output_blocks,
-            num_tasks=source.npartitions,
+            # one task per output block of the region (none for an empty source)
+            num_tasks=sum(1 for _ in output_blocks),
             fusable_with_successors=False,
             **blockwise_kwargs,
         )
